@@ -205,6 +205,17 @@ def run_case(c, stats):
             call(arg2.add_start_state, "zz_new0") if R["fa"]["kind"] != "dfa" else None
             call(obj.intersection, arg2)
             call(other.intersection, arg2)
+    if L["kind"] == "pda" and R["kind"] != "other" and c.get("twice"):
+        # the PDA is edited through add_transition between two intersections (same object)
+        sts = sorted(obj.states, key=lambda x: repr(x.value))
+        zs = sorted(obj.stack_symbols, key=lambda x: repr(x.value))
+        if sts and zs:
+            call(obj.add_transition, sts[0], "epsilon", zs[-1], sts[-1], [])
+            call(obj.add_transition, sts[-1], "epsilon", "ZZnew", sts[0], [zs[0]])
+            call(obj.add_final_state, sts[-1])
+            call(obj.intersection, arg)
+            call(obj.add_transition, sts[0], "a", zs[0], sts[0], [zs[0], zs[0]])
+            call(obj.intersection, arg)
     if ok and L["kind"] == "cfg" and res is not None and R["kind"] != "other":
         call(res.intersection, arg)      # idempotent on the language: checked by the same contract
     return nt
